@@ -48,6 +48,11 @@ CHECKS = {
    note="Trusted: Coq kernel/vm_compute; Model/Cache.v; Python harness. Outside the model (explored only): non-mutation of caller arrays, memory layout, re-use across computations.",
    technique="Coq refinement proof (memoised state machine vs memo-free spec) + differential op-sequence correspondence; layout/mutation search on the implementation",
    design="3/C20"),
+ "C02": dict(
+   text="Theorems (Coq): TEMPO's row-wise and PT-TEMPO's column-wise tensor networks, modelled operationally (stored MPO, split / replace / shorten per step, grow and end phase), couple every pair of time points with the same influence coefficient for every N, dkmax >= 1, with or without additional correlation time (rows_eq_columns via closed forms tempo_follows_spec / pt_follows_spec by induction over steps), the width-dt rectangle being the square (rect_width_dt_is_square, any ring); full memory follows the spec; the contraction loop is prefix-closed (prefix_consistency). Tied to /repo by running TempoBackend and PtTempoBackend+compute_dynamics on injected integer influences/propagators against the executable exact path-sum model (Model/PathSum.v driven by Model/Schedule.v; 1e-8 relative because SVDs sit in the implementation), by comparing the requested influence keys exactly, and by a public-API search Tempo vs PtTempo at two tolerances.",
+   note="Trusted: Coq kernel/vm_compute; Model/Schedule.v, Model/PathSum.v, Model/PT.v; Python harness; back-end level injection. The equality of the two path sums given equal coefficients is by construction of the model (one path-sum function, two schedules); truncation error is explored, not proved.",
+   technique="Coq proof (operational schedule models, induction over steps, lia) + differential correspondence against an exact path-sum model",
+   design="3/C02"),
 }
 
 NOT_YET = {}
